@@ -713,7 +713,7 @@ def mpf_psi0(x, prec, rnd=round_fast):
             break
         prev = term
         k += 1
-    return from_man_exp(s, -wp, wp, rnd)
+    return from_man_exp(s, -wp, prec, rnd)
 
 def mpc_psi0(z, prec, rnd=round_fast):
     """
